@@ -40,8 +40,8 @@ Definition op_out (o : op) : option nat :=
 (* SsaOp::has_choice() *)
 Definition op_has_choice (o : op) : bool :=
   match o with
-  | OBinRR b _ _ _ | OBinRI b _ _ _ | OBinIR b _ _ _ => bop_has_choice b
-  | _ => false
+  | OBinRR b _ _ _ | OBinRI b _ _ _ => bop_has_choice b
+  | _ => false    (* no ImmReg variant of a choice opcode exists (GenCheck.forms_match) *)
   end.
 
 (* variables read *)
